@@ -1,14 +1,19 @@
 def I(name, entry, **kw):
-    d = dict(name=name, entry=entry, unwind=5, timeout_s=120, model_loop_bound=26, mem_gb=6, tiers=('quick', 'thorough'),
+    d = dict(name=name, entry=entry, unwind=5, timeout_s=120, mem_gb=6, tiers=('quick', 'thorough'), model_loop_bound=26,
              bound='offers <= 3 names, disabled <= 2 names'); d.update(kw); return d
+def G(name, instances, **cxx):
+    defs = {'VP_NOFF': 3, 'VP_NDIS': 2, '_GLIBCXX_RANGES': 1}; defs.update(cxx)
+    return dict(name=name, harness='h.cpp', ranges_shim=True,
+                tus=['src/base/QXmppSasl.cpp', 'src/client/QXmppConfiguration.cpp'],
+                models=['c05_str.c', 'qt_list.c', 'models.c'], cxxdefs=defs,
+                loop_bounds={r'nameOf': 26, r'SaslHtMechanism10fromString': 9, r'QListI7QStringE13node_destruct': 8, r'QListI7QStringE9node_copy': 8},
+                instances=instances)
+V9 = dict(cbmc_flags=['--verbosity', '9'], timeout_s=40)
 SPEC = dict(
     property='C05',
     groups=[
-        dict(name='choose', harness='h.cpp', ranges_shim=True,
-             tus=['src/base/QXmppSasl.cpp', 'src/client/QXmppConfiguration.cpp'],
-             models=['c05_str.c', 'qt_list.c', 'models.c'], cxxdefs={'VP_NOFF': 3, 'VP_NDIS': 2, '_GLIBCXX_RANGES': 1}, loop_bounds={r'nameOf': 26, r'SaslHtMechanism10fromString': 9},
-             instances=[I('choose', 'h_choose'), I('default_plain', 'h_default_plain')]),
-        dict(name='dbg', harness='h.cpp', ranges_shim=True, tus=['src/base/QXmppSasl.cpp', 'src/client/QXmppConfiguration.cpp'], models=['c05_str.c', 'qt_list.c', 'models.c'], cxxdefs={'VP_NOFF': 3, 'VP_NDIS': 2, '_GLIBCXX_RANGES': 1, 'VP_DEBUG_ENTRIES': 1}, instances=[I('dbg1', 'h_dbg1', cbmc_flags=['--verbosity', '9']), I('dbg2', 'h_dbg2', cbmc_flags=['--verbosity', '9']), I('dbg6', 'h_dbg6', cbmc_flags=['--verbosity', '9']), I('dbg7', 'h_dbg7', cbmc_flags=['--verbosity', '9']), I('dbg3', 'h_dbg3', cbmc_flags=['--verbosity', '9']), I('dbg4', 'h_dbg4', cbmc_flags=['--verbosity', '9']), I('dbg5', 'h_dbg5', cbmc_flags=['--verbosity', '9'])]),
+        G('choose', [I('choose', 'h_choose'), I('default_plain', 'h_default_plain')]),
+        G('dbg', [I('dbg%d' % i, 'h_dbg%d' % i, **V9) for i in (6, 7, 8, 9)], VP_DEBUG_ENTRIES=1),
     ],
     bounds=[], assumptions=[], outside=[],
 )
